@@ -25,6 +25,10 @@ inductive Strategy where
   | other
   deriving Repr, DecidableEq, Inhabited
 
+/-- the values of the `Strategy` constants (`BestPingStrategy`, `FirstWorkingConnection`) -/
+def strategyOfName (s : String) : Strategy :=
+  if s == "best-ping" then .bestPing else if s == "first-working" then .firstWorking else .other
+
 /-- `var maxSeqno uint32; for _, c := range p.conns { if maxSeqno < seqno { maxSeqno = seqno } }` — over ALL
 members, dead ones included. -/
 def maxSeqno (cs : List Conn) : BitVec 32 :=
